@@ -4,7 +4,7 @@ to /repo (git apply), runs the quick check of its property, records whether a re
 and undoes the change (git checkout).  Usage: seedtest.py [seed-id ...]   Writes seeded/RESULTS.md."""
 import json, os, subprocess, sys, time
 VERIF = os.path.dirname(os.path.dirname(os.path.abspath(__file__)))
-REPO = "/repo"
+REPO = os.environ.get("VERIF_REPO", "/repo")  # a scratch worktree while /repo is in use by a long run
 sys.path.insert(0, os.path.join(VERIF, "checks"))
 from props import PROPS
 seeds = sorted(d for d in os.listdir(os.path.join(VERIF, "seeded")) if os.path.isdir(os.path.join(VERIF, "seeded", d)))
